@@ -8,8 +8,10 @@ import (
 	"os/exec"
 	"path/filepath"
 	"regexp"
+	"runtime"
 	"sort"
 	"strings"
+	"syscall"
 	"testing"
 
 	"github.com/lavanet/lava/v5/utils"
@@ -46,6 +48,7 @@ func quietLogs() {
 }
 
 func runChild() int {
+	runtime.LockOSThread() // Pdeathsig is bound to the thread that starts the child
 	base := os.Getenv("VERIF_EV_DIR")
 	if base == "" {
 		base = os.TempDir()
@@ -58,6 +61,8 @@ func runChild() int {
 	}
 	defer os.RemoveAll(dir)
 	cmd := exec.Command(os.Args[0], os.Args[1:]...)
+	// the driver may kill this process on its own timeout: take the child along
+	cmd.SysProcAttr = &syscall.SysProcAttr{Pdeathsig: syscall.SIGKILL}
 	cmd.Env = append(os.Environ(), "VERIF_SESS_CHILD=1", "GORACE=halt_on_error=0 log_path="+filepath.Join(dir, "race"))
 	var buf bytes.Buffer
 	w := io.MultiWriter(os.Stdout, &buf)
@@ -81,6 +86,17 @@ func runChild() int {
 		}
 	}
 	out := buf.String()
+	if i := strings.Index(out, "fatal error: concurrent map"); i >= 0 && code != 0 {
+		// the runtime's own detection of unsynchronised map access kills the process
+		tail := out[i:]
+		if len(tail) > 3000 {
+			tail = tail[:3000]
+		}
+		if strings.Contains(tail, "protocol/lavasession.") {
+			fmt.Println(ev.Violation("C27", "the Go runtime aborted with %q inside protocol/lavasession under a legal concurrent schedule (unsynchronised access to session manager maps)", strings.SplitN(tail, "\n", 2)[0]))
+			return 1
+		}
+	}
 	if len(reports) == 0 {
 		return code
 	}
